@@ -154,6 +154,45 @@ theorem src_u16_injective (c c' : UInt16) (x x' : List Go.Bytes) (v v' : List Go
   injection r2 with r2 _
   exact ⟨r1.symm, r2.symm⟩
 
+theorem src_u32_injective (c c' : UInt32) (x x' : List Go.Bytes) (v v' : List Go.Bytes)
+    (h : p2pmux.uint32MuxFunc c x = .ok v) (h' : p2pmux.uint32MuxFunc c' x' = .ok v') (e : v.flatten = v'.flatten) :
+    c = c' ∧ x.flatten = x'.flatten := by
+  have r := src_u32_roundtrip c x
+  have r' := src_u32_roundtrip c' x'
+  rw [h] at r; rw [h'] at r'
+  simp only [bind_ok] at r r'
+  rw [e, r'] at r
+  injection r with r
+  injection r with r1 r2
+  injection r2 with r2 _
+  exact ⟨r1.symm, r2.symm⟩
+
+theorem src_u64_injective (c c' : UInt64) (x x' : List Go.Bytes) (v v' : List Go.Bytes)
+    (h : p2pmux.uint64MuxFunc c x = .ok v) (h' : p2pmux.uint64MuxFunc c' x' = .ok v') (e : v.flatten = v'.flatten) :
+    c = c' ∧ x.flatten = x'.flatten := by
+  have r := src_u64_roundtrip c x
+  have r' := src_u64_roundtrip c' x'
+  rw [h] at r; rw [h'] at r'
+  simp only [bind_ok] at r r'
+  rw [e, r'] at r
+  injection r with r
+  injection r with r1 r2
+  injection r2 with r2 _
+  exact ⟨r1.symm, r2.symm⟩
+
+theorem src_varint_injective (c c' : UInt64) (x x' : List Go.Bytes) (v v' : List Go.Bytes)
+    (h : p2pmux.varintMuxFunc c x = .ok v) (h' : p2pmux.varintMuxFunc c' x' = .ok v') (e : v.flatten = v'.flatten) :
+    c = c' ∧ x.flatten = x'.flatten := by
+  have r := src_varint_roundtrip c x
+  have r' := src_varint_roundtrip c' x'
+  rw [h] at r; rw [h'] at r'
+  simp only [bind_ok] at r r'
+  rw [e, r'] at r
+  injection r with r
+  injection r with r1 r2
+  injection r2 with r2 _
+  exact ⟨r1.symm, r2.symm⟩
+
 theorem src_string_injective (c c' : Go.Bytes) (x x' : List Go.Bytes) (v v' : List Go.Bytes)
     (hl : c.length + 10 + x.flatten.length < 2 ^ 63) (hl' : c'.length + 10 + x'.flatten.length < 2 ^ 63)
     (h : p2pmux.stringMuxFunc c x = .ok v) (h' : p2pmux.stringMuxFunc c' x' = .ok v') (e : v.flatten = v'.flatten) :
